@@ -312,6 +312,9 @@ def _reparse_raw_stmtlike(self: fst.FST, new_lines: list[str], ln: int, col: int
         if (body := getattr(stmtlikea, field, None)) is not None:
             setattr(copya, field, body)
 
+    if (type_comment := getattr(stmtlikea, 'type_comment', None)) is not None:  # lives after the header so was not part of what was reparsed
+        copya.type_comment = type_comment
+
     stmtlike._set_ast(copya)  # TODO: optimize so we don't remake body trees where theyre already valid
     # stmtlike._touchall(True, False, False)  # self already _touch()ed in _set_ast()
 
